@@ -31,6 +31,7 @@ LITS = [Literal(0), Literal(""), Literal(False), Literal("x"), Literal('a"b'), L
         Literal("x", datatype=URIRef("urn:dt:custom")), Literal("'single'"), Literal("a\rb"), Literal(" lead trail "), Literal(1.5e10)]
 O = [URIRef(E + "o")] + LITS
 GRAPHS = [URIRef(E + "g1"), URIRef(E + "g2")]
+G3 = URIRef(E + "g3")
 SHAPES = list(itertools.product([0, 1], repeat=3))
 
 _SRV = {}
@@ -109,7 +110,8 @@ def gen_case(rng):
         k = rng.random()
         t = rng.choice(pool)
         if k < 0.28: steps.append(["add", [enc(x) for x in t]])
-        elif k < 0.34: steps.append(["addN", [[enc(x) for x in rng.choice(pool)] for _ in range(rng.choice([1, 2, 3]))]])
+        elif k < 0.30: steps.append(["addN", [[enc(x) for x in rng.choice(pool)] for _ in range(rng.choice([1, 2, 3]))]])
+        elif k < 0.34: steps.append(["addN2", [[enc(x) for x in rng.choice(pool)] for _ in range(rng.choice([1, 2]))], rng.random() < 0.5])
         elif k < 0.46:
             shape = rng.choice(SHAPES); steps.append(["remove", [enc(x) if b else None for x, b in zip(t, shape)]])
         elif k < 0.50: steps.append(["update", [enc(x) for x in rng.choice(pool)], rng.choice(["insert", "delete"])])
@@ -155,7 +157,10 @@ def run_case(case, st=None):
     store = SPARQLUpdateStore(url, url, method=cfg["method"], returnFormat=cfg["fmt"], autocommit=cfg["autocommit"], dirty_reads=cfg["dirty"], **extra)
     g = Graph(store, identifier=gname) if gname is not None else Graph(store, identifier=DATASET_DEFAULT_GRAPH_ID)
     committed = {}     # tkey -> triple : what the endpoint's graph must hold
-    pending = []       # queued (op, arg) when autocommit is off
+    third = {}         # the same for a third graph that only addN batches write to
+    states = {"g": committed, "t": third}
+    third_key = str(G3)
+    pending = []       # queued (op, arg, target) when autocommit is off
     writes_seen = 0; reads_after = False
 
     def apply(state, op, arg):
@@ -167,18 +172,19 @@ def run_case(case, st=None):
     def visible():   # what a read through the client must see
         s = dict(committed)
         if not cfg["autocommit"] and not cfg["dirty"]:
-            for op, arg in pending: apply(s, op, arg)
+            for op, arg, tgt in pending:
+                if tgt == "g": apply(s, op, arg)
         return s
 
     def flush():
         nonlocal pending
-        for op, arg in pending: apply(committed, op, arg)
+        for op, arg, tgt in pending: apply(states[tgt], op, arg)
         pending = []
 
-    def write(op, arg):
+    def write(op, arg, tgt="g"):
         nonlocal writes_seen
-        if cfg["autocommit"]: apply(committed, op, arg)
-        else: pending.append((op, arg))
+        if cfg["autocommit"]: apply(states[tgt], op, arg)
+        else: pending.append((op, arg, tgt))
 
     def n_updates(): return sum(1 for e in _SRV["log"] if e["kind"] == "update")
 
@@ -190,7 +196,9 @@ def run_case(case, st=None):
                 where, mkey, len(bs.get(mkey, set())), len(committed), sorted(bs.get(mkey, set()) - set(committed), key=str)[:2], sorted(set(committed) - bs.get(mkey, set()), key=str)[:2]))
         if bs.get(other_key, set()) != other:
             return ("isolation", "%s: another graph at the endpoint was changed" % where)
-        extra_graphs = set(bs) - {mkey, other_key}
+        if bs.get(third_key, set()) != set(third):
+            return ("effect", "%s: the endpoint's graph %s holds %s, the history implies %s" % (where, third_key, sorted(bs.get(third_key, set()), key=str)[:3], sorted(third, key=str)[:3]))
+        extra_graphs = set(bs) - {mkey, other_key, third_key}
         if any(bs[x] for x in extra_graphs):
             return ("effect", "%s: triples appeared in an unrelated graph %s" % (where, sorted(extra_graphs)))
         return None
@@ -207,6 +215,15 @@ def run_case(case, st=None):
                 ts = [tuple(dec(x) for x in t) for t in step[1]]
                 g.addN([t + (g,) for t in ts])
                 for t in ts: write("add", t)
+            elif k == "addN2":
+                # one batch that writes to two graphs, with a triple that goes to both
+                ts = [tuple(dec(x) for x in t) for t in step[1]]
+                g3 = Graph(store, identifier=G3)
+                quads = [t + (g,) for t in ts] + [ts[0] + (g3,)]
+                if step[2]: quads.reverse()
+                store.addN(quads)      # (Graph.addN keeps only the quads of that graph; the store takes a batch for several graphs)
+                for t in ts: write("add", t)
+                write("add", ts[0], "t")
             elif k == "remove":
                 pat = tuple(dec(x) for x in step[1]); g.remove(pat); write("remove", pat)
             elif k == "update":
@@ -263,12 +280,14 @@ def run_case(case, st=None):
                         wantn = set()
                         if gname is not None and exp: wantn.add(str(gname))
                         if other: wantn.add(other_key)
+                        if third: wantn.add(third_key)
                     else:
                         kt = tuple(lkey(x) for x in t)
                         wantn = set()
                         if gname is not None and kt in exp: wantn.add(str(gname))
                         if kt in other: wantn.add(other_key)
-                    allowed = wantn | ({str(gname), other_key} if t is None else set())   # the endpoint may still list graphs that became empty
+                        if kt in third: wantn.add(third_key)
+                    allowed = wantn | ({str(gname), other_key, third_key} if t is None else set())   # the endpoint may still list graphs that became empty
                     if not (wantn <= names <= allowed):
                         return ("mirror:contexts", "%s: contexts(%s) = %s, expected %s" % (where, "triple" if t else "", sorted(names), sorted(wantn)))
                 elif k == "query":
@@ -281,7 +300,7 @@ def run_case(case, st=None):
                 if writes_seen: reads_after = True
         except Exception as ex:
             return ("raises", "%s raised %s: %s" % (where, type(ex).__name__, str(ex)[:300]))
-        if k in ("add", "addN", "remove", "update", "remove_graph"):
+        if k in ("add", "addN", "addN2", "remove", "update", "remove_graph"):
             writes_seen += 1
             st["write:" + k] = st.get("write:" + k, 0) + 1
             if not cfg["autocommit"]:
